@@ -80,11 +80,27 @@ def expected_next(methods, m, fn, args, kws, env):
         return ("unspec", "applicability")
     if app is False:
         return M.resolve(methods, args, kws, env)
-    ch = M.chain(methods, args, kws, env)
-    for i, r in enumerate(ch):
-        if r == ("method", m["id"]):
-            return ch[i + 1]
-    return ("unspec", "current method lies behind a tied / unspecified rank")
+    # "the method that would have been chosen had the current method and everything ranked above it not been
+    # registered": remove m and every applicable method that beats m; well-defined whenever m beats everything
+    # that is left (true along a chain, and also for a method lying below a tied rank)
+    cands, unk = M.applicable_set(methods, args, kws, env)
+    if unk:
+        return ("unspec", "applicability")
+    seq = {x["id"]: i for i, x in enumerate(methods)}
+    n, names = len(args), set(kws)
+    rest = []
+    for x in cands:
+        if x is m:
+            continue
+        b = M.beats(x, m, n, names, env, seq)
+        if b is None:
+            return ("unspec", "order")
+        if b:
+            continue  # ranked above the current method
+        if M.beats(m, x, n, names, env, seq) is not True:
+            return ("unspec", "a remaining method is not ranked below the current one (tied rank)")
+        rest.append(x)
+    return M.resolve_among(rest, n, names, env, seq)
 
 
 def run_case(spec):
